@@ -13,12 +13,14 @@ use ckb_types::{
         Cycle, DepType, ScriptHashType, TransactionView,
     },
     packed::{OutPoint, OutPointVec},
-    prelude::{Entity, IntoHeaderView},
+    prelude::{Entity, IntoHeaderView, Unpack},
 };
 use ckb_verification::{
-    CapacityVerifier, NonContextualTransactionVerifier, ScriptVerifier,
+    CapacityVerifier, NonContextualTransactionVerifier, ScriptVerifier, Since, SinceMetric,
     TimeRelativeTransactionVerifier, TransactionError,
 };
+
+use ckb_traits::HeaderFieldsProvider;
 
 use crate::storage::StorageWithChainData;
 
@@ -134,7 +136,30 @@ pub fn verify_tx(
 
     let rtx = resolve_tx(swc, transaction)?;
     let (_, tip_header) = swc.storage().get_last_state();
-    let tx_env = TxVerifyEnv::new_submit(&tip_header.into_view());
+    let tip_header = tip_header.into_view();
+    // A since with the timestamp metric is compared with the median time of the last blocks,
+    // which the verifier computes from the headers from the tip backwards and panics when one of
+    // them is unknown: the light client only knows them while a peer with a proved state is connected.
+    let uses_median_time = rtx.transaction.inputs().into_iter().any(|input| {
+        let since: u64 = input.since().unpack();
+        matches!(
+            Since(since).extract_metric(),
+            Some(SinceMetric::Timestamp(_))
+        )
+    });
+    if uses_median_time {
+        let mut hash = tip_header.hash();
+        for _ in 0..consensus.median_time_block_count() {
+            let fields = swc
+                .get_header_fields(&hash)
+                .ok_or_else(|| OutPointError::InvalidHeader(hash.clone()))?;
+            if fields.number == 0 {
+                break;
+            }
+            hash = fields.parent_hash;
+        }
+    }
+    let tx_env = TxVerifyEnv::new_submit(&tip_header);
     ContextualTransactionVerifier::new(Arc::new(rtx), Arc::clone(&consensus), swc, Arc::new(tx_env))
         .verify(consensus.max_block_cycles())
 }
